@@ -35,13 +35,16 @@ pub enum Stmt {
     If(Cond, Vec<Stmt>, Vec<(Cond, Vec<Stmt>)>, Option<Vec<Stmt>>),
     /// C41: `while c do … end`
     While(Cond, Vec<Stmt>),
+    /// C41: `while true do … end`
+    WhileTrue(Vec<Stmt>),
     /// C41: `repeat … until c`
     Repeat(Vec<Stmt>, Cond),
     /// C41: `for i = a, b do … end` (literal bounds)
-    ForNum(i64, i64, Vec<Stmt>),
+    ForNum(u32, u32, Vec<Stmt>),
     /// C41: `for _ in pairs({…n items…}) do … end`
     ForIn(u32, Vec<Stmt>),
-    Break,
+    /// C41: `if c then break end`
+    BreakIf(Cond),
 }
 
 #[derive(Clone, Debug, PartialEq)]
@@ -183,6 +186,12 @@ impl R {
                 self.block(b);
                 self.line("end");
             }
+            Stmt::WhileTrue(b) => {
+                self.toks.push("X".into());
+                self.line("while true do");
+                self.block(b);
+                self.line("end");
+            }
             Stmt::Repeat(b, c) => {
                 self.toks.push("R".into());
                 self.line("repeat");
@@ -205,9 +214,10 @@ impl R {
                 self.block(b);
                 self.line("end");
             }
-            Stmt::Break => {
+            Stmt::BreakIf(c) => {
                 self.toks.push("K".into());
-                self.line("break");
+                let cs = self.cond(c);
+                self.line(&format!("if {cs} then break end"));
             }
         }
     }
@@ -241,7 +251,7 @@ impl Prog {
     pub fn has_loop(&self) -> bool {
         fn b(v: &[Stmt]) -> bool {
             v.iter().any(|s| match s {
-                Stmt::While(..) | Stmt::Repeat(..) | Stmt::ForNum(..) | Stmt::ForIn(..) | Stmt::Break => true,
+                Stmt::While(..) | Stmt::WhileTrue(..) | Stmt::Repeat(..) | Stmt::ForNum(..) | Stmt::ForIn(..) | Stmt::BreakIf(..) => true,
                 Stmt::If(_, t, ei, e) => b(t) || ei.iter().any(|(_, x)| b(x)) || e.as_ref().is_some_and(|x| b(x)),
                 _ => false,
             })
@@ -256,7 +266,7 @@ impl Prog {
                     Stmt::If(_, t, ei, e) => {
                         1 + b(t) + ei.iter().map(|(_, x)| b(x)).sum::<usize>() + e.as_ref().map_or(0, |x| b(x))
                     }
-                    Stmt::While(_, x) | Stmt::Repeat(x, _) | Stmt::ForNum(_, _, x) | Stmt::ForIn(_, x) => b(x),
+                    Stmt::While(_, x) | Stmt::WhileTrue(x) | Stmt::Repeat(x, _) | Stmt::ForNum(_, _, x) | Stmt::ForIn(_, x) => b(x),
                     _ => 0,
                 })
                 .sum()
@@ -271,7 +281,7 @@ impl Prog {
                     Stmt::If(_, t, ei, e) => {
                         1 + b(t) + ei.iter().map(|(_, x)| b(x)).sum::<usize>() + e.as_ref().map_or(0, |x| b(x))
                     }
-                    Stmt::While(_, x) | Stmt::Repeat(x, _) | Stmt::ForNum(_, _, x) | Stmt::ForIn(_, x) => 1 + b(x),
+                    Stmt::While(_, x) | Stmt::WhileTrue(x) | Stmt::Repeat(x, _) | Stmt::ForNum(_, _, x) | Stmt::ForIn(_, x) => 1 + b(x),
                     _ => 1,
                 })
                 .sum()
@@ -404,6 +414,7 @@ fn parse_block(t: &[&str], i: &mut usize) -> Option<Vec<Stmt>> {
                 let c = parse_cond(t, i)?;
                 Stmt::While(c, parse_block(t, i)?)
             }
+            "X" => Stmt::WhileTrue(parse_block(t, i)?),
             "R" => {
                 let b = parse_block(t, i)?;
                 Stmt::Repeat(b, parse_cond(t, i)?)
@@ -419,7 +430,7 @@ fn parse_block(t: &[&str], i: &mut usize) -> Option<Vec<Stmt>> {
                 *i += 1;
                 Stmt::ForIn(n, parse_block(t, i)?)
             }
-            "K" => Stmt::Break,
+            "K" => Stmt::BreakIf(parse_cond(t, i)?),
             _ => return None,
         });
     }
@@ -466,13 +477,19 @@ pub fn gen_cond(rng: &mut Rng, nv: usize, depth: usize, logic: bool) -> Cond {
     }
 }
 
-fn gen_block(rng: &mut Rng, cfg: &GenCfg, nv: usize, depth: usize, in_loop: bool) -> Vec<Stmt> {
+fn gen_block(rng: &mut Rng, cfg: &GenCfg, nv: usize, depth: usize, in_loop: bool, inert: bool) -> Vec<Stmt> {
     let n = rng.below(cfg.max_block + 1);
     let mut out = Vec::new();
     for _ in 0..n {
-        let k = rng.below(if cfg.loops { 13 } else { 9 });
+        let k = rng.below(if cfg.loops { 14 } else { 9 });
         match k {
-            0..=2 => out.push(Stmt::Assign(rng.below(nv), gen_lit(rng))),
+            0..=2 => {
+                if inert {
+                    out.push(Stmt::Probe(rng.below(nv)));
+                } else {
+                    out.push(Stmt::Assign(rng.below(nv), gen_lit(rng)));
+                }
+            }
             3 | 4 => out.push(Stmt::Probe(rng.below(nv))),
             5..=8 => {
                 if depth == 0 {
@@ -480,82 +497,91 @@ fn gen_block(rng: &mut Rng, cfg: &GenCfg, nv: usize, depth: usize, in_loop: bool
                     continue;
                 }
                 let c = gen_cond(rng, nv, 2, cfg.logic);
-                let thn = gen_block(rng, cfg, nv, depth - 1, in_loop);
+                let thn = gen_block(rng, cfg, nv, depth - 1, in_loop, inert);
                 let mut elifs = Vec::new();
                 while rng.chance(1, 5) && elifs.len() < 2 {
-                    elifs.push((gen_cond(rng, nv, 2, cfg.logic), gen_block(rng, cfg, nv, depth - 1, in_loop)));
+                    elifs.push((gen_cond(rng, nv, 2, cfg.logic), gen_block(rng, cfg, nv, depth - 1, in_loop, inert)));
                 }
-                let els = if rng.chance(1, 2) { Some(gen_block(rng, cfg, nv, depth - 1, in_loop)) } else { None };
+                let els = if rng.chance(1, 2) { Some(gen_block(rng, cfg, nv, depth - 1, in_loop, inert)) } else { None };
                 out.push(Stmt::If(c, thn, elifs, els));
             }
-            9 => {
+            9..=12 => {
                 if depth == 0 {
                     continue;
                 }
-                // `while` loops must terminate: the condition tests a variable the body's last statement
-                // makes falsy/truthy, or the body ends in `break`
+                // bodies of "inert" loops assign nothing (the fragment of the C41 theorem); the others may assign
+                let body_inert = inert || rng.chance(2, 5);
                 let x = rng.below(nv);
-                let mut body = gen_block(rng, cfg, nv, depth - 1, true);
-                let c = match rng.below(4) {
-                    0 => {
-                        body.push(Stmt::Assign(x, Lit::Nil));
-                        Cond::Truthy(x)
-                    }
-                    1 => {
-                        body.push(Stmt::Assign(x, gen_truthy_lit(rng)));
-                        Cond::Not(Box::new(Cond::Truthy(x)))
+                let mut body = gen_block(rng, cfg, nv, depth - 1, true, body_inert);
+                match rng.below(6) {
+                    0 | 1 => {
+                        // while: make termination likely (non-terminating programs are filtered by the interpreter)
+                        let c = if body_inert {
+                            body.push(Stmt::BreakIf(gen_cond(rng, nv, 1, cfg.logic)));
+                            gen_cond(rng, nv, 1, cfg.logic)
+                        } else {
+                            match rng.below(4) {
+                                0 => {
+                                    body.push(Stmt::Assign(x, if rng.chance(1, 2) { Lit::Nil } else { Lit::Bool(false) }));
+                                    Cond::Truthy(x)
+                                }
+                                1 => {
+                                    body.push(Stmt::Assign(x, gen_truthy_lit(rng)));
+                                    Cond::Not(Box::new(Cond::Truthy(x)))
+                                }
+                                2 => {
+                                    body.push(Stmt::Assign(x, gen_truthy_lit(rng)));
+                                    Cond::IsNil(x, false, false)
+                                }
+                                _ => {
+                                    body.push(Stmt::Assign(x, Lit::Nil));
+                                    Cond::IsNil(x, true, false)
+                                }
+                            }
+                        };
+                        out.push(Stmt::While(c, body));
                     }
                     2 => {
-                        body.push(Stmt::Assign(x, gen_truthy_lit(rng)));
-                        Cond::IsNil(x, false, false)
+                        if !body_inert {
+                            body.push(Stmt::Assign(x, gen_truthy_lit(rng)));
+                            body.push(Stmt::BreakIf(Cond::Truthy(x)));
+                        } else {
+                            body.push(Stmt::BreakIf(gen_cond(rng, nv, 1, cfg.logic)));
+                        }
+                        out.push(Stmt::WhileTrue(body));
                     }
-                    _ => {
-                        body.push(Stmt::Break);
-                        gen_cond(rng, nv, 1, cfg.logic)
+                    3 => {
+                        let c = if body_inert {
+                            gen_cond(rng, nv, 1, cfg.logic)
+                        } else {
+                            match rng.below(3) {
+                                0 => {
+                                    body.push(Stmt::Assign(x, gen_truthy_lit(rng)));
+                                    Cond::Truthy(x)
+                                }
+                                1 => {
+                                    body.push(Stmt::Assign(x, Lit::Nil));
+                                    Cond::IsNil(x, false, false)
+                                }
+                                _ => {
+                                    body.push(Stmt::Assign(x, gen_truthy_lit(rng)));
+                                    Cond::IsNil(x, true, false)
+                                }
+                            }
+                        };
+                        out.push(Stmt::Repeat(body, c));
                     }
-                };
-                out.push(Stmt::While(c, body));
-            }
-            10 => {
-                if depth == 0 {
-                    continue;
-                }
-                let x = rng.below(nv);
-                let mut body = gen_block(rng, cfg, nv, depth - 1, true);
-                let c = match rng.below(3) {
-                    0 => {
-                        body.push(Stmt::Assign(x, gen_truthy_lit(rng)));
-                        Cond::Truthy(x)
+                    4 => {
+                        let a = rng.below(3) as u32;
+                        let z = rng.below(4) as u32;
+                        out.push(Stmt::ForNum(a, z, body));
                     }
-                    1 => {
-                        body.push(Stmt::Assign(x, Lit::Nil));
-                        Cond::IsNil(x, false, false)
-                    }
-                    _ => {
-                        body.push(Stmt::Assign(x, gen_truthy_lit(rng)));
-                        Cond::IsNil(x, true, false)
-                    }
-                };
-                out.push(Stmt::Repeat(body, c));
-            }
-            11 => {
-                if depth == 0 {
-                    continue;
-                }
-                let body = gen_block(rng, cfg, nv, depth - 1, true);
-                if rng.chance(1, 2) {
-                    let a = rng.below(3) as i64;
-                    let z = rng.below(4) as i64;
-                    out.push(Stmt::ForNum(a, z, body));
-                } else {
-                    out.push(Stmt::ForIn(rng.below(3) as u32, body));
+                    _ => out.push(Stmt::ForIn(rng.below(3) as u32, body)),
                 }
             }
             _ => {
                 if in_loop && rng.chance(1, 2) {
-                    // a conditional break (a bare `break` must be the last statement of its block)
-                    let c = gen_cond(rng, nv, 1, cfg.logic);
-                    out.push(Stmt::If(c, vec![Stmt::Break], vec![], None));
+                    out.push(Stmt::BreakIf(gen_cond(rng, nv, 1, cfg.logic)));
                 } else {
                     out.push(Stmt::Probe(rng.below(nv)));
                 }
@@ -565,10 +591,6 @@ fn gen_block(rng: &mut Rng, cfg: &GenCfg, nv: usize, depth: usize, in_loop: bool
     // probes make the program observable: add one for a random variable with good probability
     if rng.chance(2, 3) {
         out.push(Stmt::Probe(rng.below(nv)));
-    }
-    // `break` must be last in its block
-    if let Some(pos) = out.iter().position(|s| matches!(s, Stmt::Break)) {
-        out.truncate(pos + 1);
     }
     out
 }
@@ -586,7 +608,7 @@ fn gen_truthy_lit(rng: &mut Rng) -> Lit {
 pub fn gen_prog(rng: &mut Rng, cfg: &GenCfg) -> Prog {
     let nv = rng.range(1, cfg.max_vars);
     let decls = (0..nv).map(|_| if rng.chance(1, 6) { None } else { Some(gen_lit(rng)) }).collect();
-    let mut body = gen_block(rng, cfg, nv, cfg.max_depth, false);
+    let mut body = gen_block(rng, cfg, nv, cfg.max_depth, false, false);
     if body.is_empty() {
         body.push(Stmt::Probe(0));
     }
